@@ -10,7 +10,7 @@ TECHNIQUE = "runtime monitoring: round-trip history checker on the real encode/d
 LEVEL_TEXT = ("Held on every generated (graph, start, message, mode, table, check) case of this run; the universal claim is "
               "sampled, not proved. Boundary classes (out-degree x mode x table x check, message classes) are populated "
               "by construction and have floors below which the run is inconclusive.")
-LEVEL_NOTE = ("Trusts the harness's walk oracle and graph pruning routine; graphs of order <= 5, messages <= 1024 bits; "
+LEVEL_NOTE = ("Trusts the harness's walk oracle and graph pruning routine; graphs of order <= 4 (quick) / 6 (thorough), messages <= 400 (quick) / 2048 (thorough) bits; "
               "numpy bool messages excluded as unsupported input.")
 PLAN = {"quick": dict(shards=16, budget=40), "thorough": dict(shards=32, budget=420)}
 RULE = ("Client-side history of two events per case: s = encode(m, G, v, mode, table, vt) then decode(s, len(m), G, v, "
@@ -36,9 +36,9 @@ def setup(ctx):
 
 def generate(ctx):
     rng = ctx.rng
-    ks = ctx.pick([1, 2, 2, 3, 3], [1, 2, 2, 3, 3, 4, 4, 5])
+    ks = ctx.pick([1, 2, 2, 3, 3, 4], [1, 2, 2, 3, 3, 4, 4, 5, 5, 6])
     max_len = ctx.pick(64, 256)
-    n_graphs = ctx.pick(60, 900)
+    n_graphs = ctx.pick(150, 1200)
     for gi in range(n_graphs):
         k = rng.choice(ks)
         fast = rng.random() < 0.45
@@ -62,7 +62,7 @@ def generate(ctx):
         per_start = ctx.pick(6, 10) if k <= 2 else ctx.pick(10, 16)
         for start in starts:
             for _ in range(per_start):
-                bits, mclass = gens.message(rng, max_len if rng.random() < 0.9 else ctx.pick(160, 1024))
+                bits, mclass = gens.message(rng, max_len if rng.random() < 0.92 else ctx.pick(400, 2048) if rng.random() < 0.3 else ctx.pick(160, 700))
                 yield "roundtrip", dict(gcase, start=int(start), bits=bits, fast=fast, table=rand_table_spec(rng),
                                         vt=rng.choice(VTS), dtype=rng.choice(DTYPES), mclass=mclass, fam=fam)
 
